@@ -5,10 +5,10 @@ import (
 	"crypto/hmac"
 	"crypto/md5"
 	"crypto/sha256"
-	"hash"
-	"strconv"
 	"encoding/base64"
 	"fmt"
+	"hash"
+	"strconv"
 
 	"verif/common"
 
@@ -125,7 +125,10 @@ func stabilityChecks(r *common.Run) {
 	fns := []fn{
 		{"HexEncode", func(in []byte) ([]byte, string, bool) { return strz.HexEncode(in), "", false }},
 		{"HexEncodeToString", func(in []byte) ([]byte, string, bool) { return nil, strz.HexEncodeToString(in), true }},
-		{"HexDecode", func(in []byte) ([]byte, string, bool) { b, _ := strz.HexDecode(strz.HexEncode(in)); return b, "", false }},
+		{"HexDecode", func(in []byte) ([]byte, string, bool) {
+			b, _ := strz.HexDecode(strz.HexEncode(in))
+			return b, "", false
+		}},
 		{"HexDecodeToString", func(in []byte) ([]byte, string, bool) {
 			s, _ := strz.HexDecodeToString(strz.HexEncode(in))
 			return nil, s, true
@@ -137,9 +140,17 @@ func stabilityChecks(r *common.Run) {
 		{"Sha1ToString", func(in []byte) ([]byte, string, bool) { return nil, hashz.Sha1ToString(in), true }},
 		{"Sha512ToString", func(in []byte) ([]byte, string, bool) { return nil, hashz.Sha512ToString(in), true }},
 		{"Hmac(sha256)", func(in []byte) ([]byte, string, bool) { return hashz.Hmac([]byte("key"), in, sha256.New), "", false }},
-		{"HmacToString(md5)", func(in []byte) ([]byte, string, bool) { return nil, hashz.HmacToString(in, []byte("data"), md5.New), true }},
-		{"Md5Stream", func(in []byte) ([]byte, string, bool) { b, _ := hashz.Md5Stream(bytes.NewReader(in)); return b, "", false }},
-		{"Sha256Stream", func(in []byte) ([]byte, string, bool) { b, _ := hashz.Sha256Stream(bytes.NewReader(in)); return b, "", false }},
+		{"HmacToString(md5)", func(in []byte) ([]byte, string, bool) {
+			return nil, hashz.HmacToString(in, []byte("data"), md5.New), true
+		}},
+		{"Md5Stream", func(in []byte) ([]byte, string, bool) {
+			b, _ := hashz.Md5Stream(bytes.NewReader(in))
+			return b, "", false
+		}},
+		{"Sha256Stream", func(in []byte) ([]byte, string, bool) {
+			b, _ := hashz.Sha256Stream(bytes.NewReader(in))
+			return b, "", false
+		}},
 		{"LongToIPv4", func(in []byte) ([]byte, string, bool) {
 			var x uint32
 			for _, c := range in {
